@@ -11,6 +11,7 @@ CONSTANTS
   Flaky = {1}
   AnnBy <- AnnSkew
   BadFrom = {1}
+  MaxAtt = 4
   MaxHist = 8
   ReannounceLeak = FALSE
 INVARIANTS Reach_Exhausted
